@@ -9,6 +9,7 @@ import (
 	"bufio"
 	"bytes"
 	"crypto/sha256"
+	"encoding/binary"
 	"encoding/hex"
 	"encoding/json"
 	"fmt"
@@ -76,6 +77,7 @@ type ssResult struct {
 	FrameLens []int       `json:"frame_lens,omitempty"` // ref
 	StrOffs   [][]int     `json:"str_offs,omitempty"`   // ref
 	StrLens   [][]int     `json:"str_lens,omitempty"`   // ref
+	Fields    [][]ssField `json:"fields,omitempty"`     // ref: the integer fields of every frame
 	Replies   []string    `json:"replies,omitempty"`    // ref
 	EndClass  string      `json:"end_class,omitempty"`  // c07: how the judge reads the end of the stream
 	NA, NB    int         `json:",omitempty"`           // c07: frames identical to the reference / well-formed but different
@@ -219,6 +221,7 @@ func ssRunRef(cfg ssCfg, prog []ssStep, root string) (*ssRef, ssResult) {
 		res.FrameLens = append(res.FrameLens, len(f))
 		res.StrOffs = append(res.StrOffs, q.StrOffs)
 		res.StrLens = append(res.StrLens, q.StrLens)
+		res.Fields = append(res.Fields, q.Fields)
 		res.Replies = append(res.Replies, ssReplyText(rep))
 	}
 	s.srv.CloseInput()
@@ -258,6 +261,14 @@ func ssRunC07(ref *ssRef, m ssMut, root string) ssResult {
 		return res
 	}
 	answered := 0
+	// "pure": every request so far that differs from the reference run is of a kind that changes
+	// nothing (READ, STAT …), whatever its field values — so the recorded requests that follow it
+	// must be answered exactly as in the reference run.
+	pure := true
+	maxData := uint32(32768)
+	if cfg.MaxTx != 0 {
+		maxData = cfg.MaxTx
+	}
 	check := func(i int, q ssReq, rep wire.Pkt, before string) {
 		f := s.trk.observe(q, rep)
 		if i < nA {
@@ -270,6 +281,30 @@ func ssRunC07(ref *ssRef, m ssMut, root string) ssResult {
 		if q.Soft && before != "" && before != s.state() {
 			key := k + "/short-attrs-dispatched"
 			res.Findings = append(res.Findings, ssFinding{Key: key, What: q.Kind + " with an attribute block shorter than its flags promise was acted upon", Expected: before, Actual: s.state()})
+		}
+		if q.Kind == "read" && rep.Typ == wire.Data && len(rep.Body) >= 8 {
+			n := binary.BigEndian.Uint32(rep.Body[4:])
+			lim := min(q.RdLen, maxData)
+			if n > lim || int(n) != len(rep.Body)-8 {
+				res.Findings = append(res.Findings, ssFinding{Key: k + "/read-reply-longer-than-asked", What: fmt.Sprintf("READ asking for %d bytes (max-tx-packet %d) answered with DATA of %d bytes (payload present: %d)", q.RdLen, maxData, n, len(rep.Body)-8), Expected: fmt.Sprintf("at most %d", lim), Actual: ssReplyText(rep)})
+			}
+		}
+		same := i < len(ref.Frames) && bytes.Equal(stream[q.Off:q.Off+q.Len], ref.Frames[i])
+		switch {
+		case same && pure:
+			if why := ssSameReply(ref.Replies[i], rep); why != "" {
+				res.Findings = append(res.Findings, ssFinding{Key: k + "/reply-differs-after-harmless-request/" + q.Kind, What: "only requests that change nothing (READ, STAT …) were altered, yet the reply to a later, unaltered request differs from the reference run: " + why, Expected: ssReplyText(ref.Replies[i]), Actual: ssReplyText(rep)})
+			}
+		case !same:
+			// a harmless request in place of a harmless one keeps the two runs in the same state
+			refHarmless := false
+			if i < len(ref.Frames) {
+				rq, why := ssParseReq(ref.Frames[i][4], ref.Frames[i][5:])
+				refHarmless = why == "" && ssHarmless[rq.Kind]
+			}
+			if !ssHarmless[q.Kind] || !refHarmless {
+				pure = false
+			}
 		}
 	}
 	dead := false
@@ -339,6 +374,9 @@ func ssRunC07(ref *ssRef, m ssMut, root string) ssResult {
 	}
 	return res
 }
+
+// request kinds that change neither the served files nor the handle table, whatever their fields say
+var ssHarmless = map[string]bool{"read": true, "stat": true, "lstat": true, "fstat": true, "readlink": true, "realpath": true, "ext:statvfs@openssh.com": true, "ext-unknown": true}
 
 // ssDiffText returns the lines of a that are not in b.
 func ssDiffText(a, b, mark string) string {
@@ -843,8 +881,8 @@ func ssCrashKey(cfg ssCfg, stderr string) (key, head string) {
 	switch {
 	case head == "" && fn == "":
 		return cfg.Kind + "/child-died-silently", strings.TrimSpace(stderr)
-	case strings.Contains(stderr, "getDataSlice"):
-		return "alloc/read-len-over-page", head // F10
+	case strings.Contains(stderr, "getDataSlice") && cfg.Alloc && cfg.MaxTx > 1<<18:
+		return "alloc/read-len-over-page", head // F10: max-tx-packet beyond the allocator's page
 	case cfg.InMem && strings.Contains(fn, "Filecmd"):
 		return "rs/short-attrs-dispatched", head // SETSTAT with a short attribute block reaches the handler; Attributes() is nil
 	case cfg.Kind == "os" && strings.Contains(stderr, "(*packetManager).controller") && strings.Contains(head, "nil pointer"):
